@@ -31,10 +31,11 @@ structure Fixes where
   f10 : Bool   -- a namespace policy with mode UNSET is treated as absent by convertPeerAuthentication
   f11 : Bool   -- creation-time ties are broken by (name, namespace) (`peerAuthnOlder`) instead of by krt order
   f12 : Bool   -- a selector without labels counts as no selector everywhere (not only a nil selector)
+  f15 : Bool := true  -- inline ServiceEntry endpoints are matched with the ENDPOINT's labels, not the resource's
   deriving DecidableEq, Repr
 
-def Fixes.all : Fixes := ⟨true, true, true, true, true⟩
-def Fixes.none : Fixes := ⟨false, false, false, false, false⟩
+def Fixes.all : Fixes := ⟨true, true, true, true, true, true⟩
+def Fixes.none : Fixes := ⟨false, false, false, false, false, false⟩
 
 /-! ## ztunnel authorization policy (the subset emitted for PeerAuthentication) -/
 
@@ -284,6 +285,43 @@ abbrev convertPA := convertPAG Fixes.all
 abbrev derivedPolicy := derivedPolicyG Fixes.all
 abbrev attached := attachedG Fixes.all
 abbrev denied := deniedG Fixes.all
+
+/-! ## The callers of `buildWorkloadPolicies`: which labels stand for the workload -/
+
+/-- The kind of object an ambient workload comes from. -/
+inductive WKind
+  | pod | workloadEntry | serviceEntryEndpoint
+  deriving DecidableEq, Repr
+
+/-- `maps.MergeCopy(spec.labels, metadata.labels)`: metadata labels win. -/
+def mergeLabels (spec mlabels : Labels) : Labels :=
+  mlabels ++ spec.filter (fun kv => (mlabels.lookup kv.1).isNone)
+
+/-- The labels handed to `buildWorkloadPolicies`: pod labels; for a WorkloadEntry the merge of spec and
+    metadata labels (`ConvertClientWorkloadEntry`); for an inline ServiceEntry endpoint the endpoint's labels
+    (pinned tree, `f15 = false`: the ServiceEntry resource's metadata labels, finding F15). -/
+def workloadLabelsFor (fx : Fixes) (k : WKind) (labels mlabels : Labels) : Labels :=
+  match k with
+  | .pod => labels
+  | .workloadEntry => if labels.isEmpty then mlabels else mergeLabels labels mlabels
+  | .serviceEntryEndpoint => if fx.f15 then labels else mlabels
+
+/-- The keys the ambient index attaches to a workload of the given kind. -/
+def workloadKeysG (fx : Fixes) (root : String) (pas : List PA) (k : WKind) (ns : String) (labels mlabels : Labels) : AKeys :=
+  ambientKeysG fx root (ambientFetchG fx root pas { ns := ns, labels := workloadLabelsFor fx k labels mlabels })
+
+/-- Specification side: the labels the workload HAS (what the sidecar registry and EDS use for it): pod labels,
+    the merged labels of a WorkloadEntry (`ConvertWorkloadEntry`, metadata wins), the inline endpoint's labels. -/
+def ownLabels (k : WKind) (labels mlabels : Labels) : Labels :=
+  match k with
+  | .pod => labels
+  | .workloadEntry => mergeLabels labels mlabels
+  | .serviceEntryEndpoint => labels
+
+/-- ztunnel's decision for a workload of the ambient index (keys as the index attaches them). -/
+def workloadDeniedG (fx : Fixes) (root : String) (pas : List PA) (k : WKind) (ns : String) (labels mlabels : Labels)
+    (authenticated : Bool) (port : Nat) : Bool :=
+  (attachedOf fx root pas (workloadKeysG fx root pas k ns labels mlabels)).any (fun p => p.matches authenticated port)
 
 /-! ## Printing (used by the driver) -/
 
